@@ -213,6 +213,7 @@ func runC09(c *Check) {
 	ruleNilGuard(c, p)
 	c.Doc("C09-R6", "EO: the hand-off of an admitted item to sync cannot be skipped: blocking send, or select with cancellation as the only alternative.")
 	ruleHandOffNotDroppable(c, p)
+	ruleDropDecisionsArePure(c, p)
 	c.Doc("C09-R7", "VP+GA: the scan cursor starts at the persisted state's DA height raised to the configured start height.")
 	ruleScanStart(c, p)
 }
@@ -716,4 +717,210 @@ func ruleScanStart(c *Check, p *Prog) {
 	} else {
 		c.Bad("C09-R7", "NewManager ⟂ cursor = max(state.DAHeight, configured start)", fn, p.InstrPos(inits[0].In), fmt.Sprintf("the scan cursor is not initialised to max(state.DAHeight, config.DA.StartHeight) (from-state=%v raise-guarded=%v raise-before-init=%v): DA heights at or after the configured start can be skipped, or the scan starts before it", okV, guarded, before), nil)
 	}
+}
+
+// ruleDropDecisionsArePure (C09-R8): in the functions that hand a DA blob to sync, a branch that
+// gives the blob up (no hand-off reachable behind it while its sibling can still reach one) may
+// depend only on the blob and on configuration fixed at construction (genesis, config, the
+// payload provider): the same genuine blob must be admitted whenever it is scanned, in
+// particular when it is scanned again after a restart. A decision on mutable node state (the
+// caches and their persisted DA-included marks, the store, heights) drops genuine blobs on the
+// re-scan.
+func ruleDropDecisionsArePure(c *Check, p *Prog) {
+	rule := "C09-R8"
+	c.Doc(rule, "GA+VP: every branch of a DA blob handler that gives the blob up depends only on the blob and on construction-time configuration, never on mutable node state.")
+	root := p.MustFunc(mgrM("RetrieveLoop"))
+	rg := BuildECFG(p, root, ExpandOpts{MaxDepth: 5})
+	handlers := map[*ssa.Function]bool{}
+	for _, sn := range rg.Select(func(x *Node) bool { si := classifySink(x); return si != nil && si.what == "send" }) {
+		handlers[sn.Ctx.Fn] = true
+	}
+	mutable := map[string]bool{"headerCache": true, "dataCache": true, "store": true, "daHeight": true, "daIncludedHeight": true, "lastState": true,
+		"pendingHeaders": true, "pendingData": true, "headerStore": true, "dataStore": true, "txsAvailable": true, "lastBatchData": true}
+	n := 0
+	var hs []*ssa.Function
+	for h := range handlers {
+		hs = append(hs, h)
+	}
+	sort.Slice(hs, func(i, j int) bool { return fnName(hs[i]) < fnName(hs[j]) })
+	for _, h := range hs {
+		g := BuildECFG(p, h, ExpandOpts{MaxDepth: 1})
+		c.NoteGraph(g)
+		isSend := func(x *Node) bool { si := classifySink(x); return si != nil && si.what == "send" }
+		sends := g.Select(isSend)
+		if len(sends) == 0 {
+			continue
+		}
+		reachesSend := func(e *Node) bool {
+			for x := range g.Reachable([]*Node{e}, nil) {
+				if isSend(x) {
+					return true
+				}
+			}
+			return false
+		}
+		byIf := map[ssa.Instruction][]*Node{}
+		for _, e := range g.Select(func(x *Node) bool { return (x.Kind == NTrue || x.Kind == NFalse) && x.Ctx.Depth == 0 }) {
+			byIf[e.In] = append(byIf[e.In], e)
+		}
+		var keys []ssa.Instruction
+		for k := range byIf {
+			keys = append(keys, k)
+		}
+		sort.Slice(keys, func(i, j int) bool { return keys[i].Pos() < keys[j].Pos() })
+		// only decisions taken before the hand-off
+		before := g.Reachable([]*Node{g.Entry}, isSend)
+		for _, k := range keys {
+			es := byIf[k]
+			if len(es) != 2 || !before[es[0]] && !before[es[1]] {
+				continue
+			}
+			r0, r1 := reachesSend(es[0]), reachesSend(es[1])
+			if r0 == r1 {
+				continue
+			}
+			drop := es[0]
+			if r0 {
+				drop = es[1]
+			}
+			t, _ := CondTerm(drop)
+			n++
+			var stateful []string
+			t.Walk(func(x *Term) bool {
+				if x.Op == "field" && mutable[x.Name] && len(x.Args) == 1 && strings.HasSuffix(x.Args[0].V.Type().String(), "block.Manager") {
+					stateful = append(stateful, x.Name)
+				}
+				return true
+			})
+			// look through predicate helpers of the repository
+			if len(stateful) == 0 && p.DeepContains(t, func(x *Term) bool {
+				return x.Op == "field" && mutable[x.Name] && len(x.Args) == 1 && x.Args[0].V != nil && strings.HasSuffix(x.Args[0].V.Type().String(), "block.Manager")
+			}, 2) {
+				stateful = append(stateful, "(through a helper)")
+			}
+			inst := fnShort(h) + " ⟂ gives-up-on " + trunc(t.String(), 70)
+			// a mark that only the consumer side writes says "sync already has this item":
+			// giving up on it drops a duplicate, not a genuine item
+			if len(stateful) > 0 {
+				nt, pol := normFact(t, true)
+				_ = pol
+				if cv, ok := nt.V.(*ssa.Call); ok && nt.Op == "call" && cv.Common().StaticCallee() != nil {
+					if why, ok := consumerOnlyMark(p, cv.Common().StaticCallee()); ok {
+						c.OK(rule, inst, fnName(h), p.InstrPos(drop.In), "the decision reads a mark written only by the consuming side ("+why+"): a duplicate of an item sync already holds", true)
+						continue
+					}
+				}
+			}
+			if len(stateful) == 0 {
+				c.OK(rule, inst, fnName(h), p.InstrPos(drop.In), "the decision depends only on the blob and construction-time configuration", true)
+			} else {
+				c.Bad(rule, inst, fnName(h), p.InstrPos(drop.In), "a blob is given up on mutable node state ("+strings.Join(stateful, ", ")+"): the same genuine blob is dropped when it is scanned again (e.g. after a restart with persisted cache marks while its event was still queued), and sync never receives it", nil)
+			}
+		}
+	}
+	if n == 0 {
+		c.Unk(rule, "DA-handlers", "", "", "anchor lost: no give-up decision found in the functions that hand DA blobs to sync")
+	}
+	c.MinInstances(rule, 4)
+}
+
+// consumerOnlyMark: pred is a reader method of the cache; the cache fields it reads are written
+// (outside restoring the cache from disk) only by methods whose call sites in the block package
+// are all unreachable from the DA / P2P retrieval loops, i.e. only the consuming side sets the
+// mark.
+func consumerOnlyMark(p *Prog, pred *ssa.Function) (string, bool) {
+	fieldsOf := func(fn *ssa.Function, write bool) map[int]bool {
+		out := map[int]bool{}
+		for _, b := range fn.Blocks {
+			for _, in := range b.Instrs {
+				call, ok := in.(*ssa.Call)
+				if !ok || !strings.HasPrefix(commonName(call.Common()), "(*sync.Map).") || len(call.Common().Args) == 0 {
+					continue
+				}
+				m := commonName(call.Common())
+				isW := strings.HasSuffix(m, ".Store") || strings.HasSuffix(m, ".Delete") || strings.HasSuffix(m, ".LoadOrStore") || strings.HasSuffix(m, ".Swap")
+				if isW != write {
+					continue
+				}
+				if u, ok := call.Common().Args[0].(*ssa.UnOp); ok {
+					if fa, ok := u.X.(*ssa.FieldAddr); ok {
+						out[fa.Field] = true
+					}
+				}
+			}
+		}
+		return out
+	}
+	read := fieldsOf(pred, false)
+	if len(read) == 0 {
+		return "", false
+	}
+	pk := fnPkg(pred)
+	if pk == nil {
+		return "", false
+	}
+	var writers []*ssa.Function
+	seenW := map[string]bool{}
+	for _, fn := range p.Funcs {
+		if fpk := fnPkg(fn); fpk == nil || fpk.Pkg.Path() != pk.Pkg.Path() || fn.Parent() != nil || fn.Signature.Recv() == nil {
+			continue
+		}
+		w := fieldsOf(fn, true)
+		hit := false
+		for f := range read {
+			if w[f] {
+				hit = true
+			}
+		}
+		// restoring the persisted cache is not a new mark
+		restores := callsNamed(fn, func(n string) bool { return strings.HasPrefix(n, "os.") || strings.Contains(n, "encoding/gob") })
+		if hit && !restores && !seenW[genericName(fnName(fn))] {
+			seenW[genericName(fnName(fn))] = true
+			writers = append(writers, fn)
+		}
+	}
+	if len(writers) == 0 {
+		return "", false
+	}
+	// functions reachable from the retrieval loops
+	producer := map[*ssa.Function]bool{}
+	var walk func(fn *ssa.Function, d int)
+	walk = func(fn *ssa.Function, d int) {
+		if producer[fn] || d > 8 {
+			return
+		}
+		producer[fn] = true
+		for _, cal := range staticCalleesOf(p, fn) {
+			walk(cal, d+1)
+		}
+		for _, an := range fn.AnonFuncs {
+			walk(an, d+1)
+		}
+	}
+	for _, l := range []string{"RetrieveLoop", "HeaderStoreRetrieveLoop", "DataStoreRetrieveLoop"} {
+		if f := p.Func(mgrM(l)); f != nil {
+			walk(f, 0)
+		}
+	}
+	var names []string
+	for _, w := range writers {
+		names = append(names, fnShort(w))
+		gn := genericName(fnName(w))
+		for _, fn := range p.Funcs {
+			fpk := fnPkg(fn)
+			if fpk == nil || fpk.Pkg.Path() != rootPath+"/block" {
+				continue
+			}
+			calls := callsNamed(fn, func(n string) bool { return n == gn })
+			top := fn
+			for top.Parent() != nil {
+				top = top.Parent()
+			}
+			if calls && (producer[fn] || producer[top]) {
+				return "", false
+			}
+		}
+	}
+	sort.Strings(names)
+	return "written by " + strings.Join(names, ", ") + ", never called from the retrieval loops", true
 }
